@@ -50,13 +50,24 @@ def make(only=None):
     print('made', len(os.listdir(MD)))
 
 
+def all_specs():
+    out = list(specs())
+    rd = os.path.join(V, 'selftest', 'refactors')
+    if os.path.isdir(rd):
+        for fn in sorted(os.listdir(rd)):
+            if fn.endswith('.patch') and fn.startswith('R-'):
+                out.append({'id': fn[:-6], 'pid': fn[2:].split('-')[0].split('+'), 'expect': None, 'patchfile': os.path.join(rd, fn)})
+    return out
+
+
 def run(only=None):
     assert clean(), '/repo not clean'
     res = []
-    for m in specs():
-        if only and m['id'] not in only and m['pid'] not in only:
+    for m in all_specs():
+        pidl = m['pid'] if isinstance(m['pid'], list) else [m['pid']]
+        if only and m['id'] not in only and not (set(pidl) & set(only)):
             continue
-        patch = os.path.join(MD, m['id'] + '.patch')
+        patch = m.get('patchfile') or os.path.join(MD, m['id'] + '.patch')
         if not os.path.exists(patch):
             print('%s: no patch' % m['id'])
             continue
